@@ -117,6 +117,7 @@ class C09(Prop):
             'start/end equal the walker and end at the leaf. Non-trivial: stream has ERRORTOKEN/f-string token/INDENT or a prefix '
             'with >=2 typed parts.')
     assumptions = ['Token.end_pos is outside the statement (start positions only)']
+    fuzz = True       # thorough/quick runs add an atheris sub-tier with this check as the in-target oracle
     budgets = {'quick': 24000, 'thorough': 640000}
 
     def strategy(self, tier):
